@@ -4,7 +4,12 @@ use crate::{Case, generate::Gen, rng::Rng, sexp};
 use anthem::{
     convenience::{apply::Apply as _, compose::Compose as _},
     syntax_tree::{asp::mini_gringo as asp, fol::sigma_0 as fol},
-    translating::classical_reduction::gamma::Gamma as _,
+    analyzing::{private_recursion::PrivateRecursion as _, regularity::Regularity as _, tightness::Tightness as _},
+    translating::{
+        classical_reduction::{completion::Completion as _, gamma::Gamma as _},
+        formula_representation::{mu::Mu as _, natural::Natural as _, tau_star::TauStar as _},
+    },
+    verif::{arguments::{Decomposition, FormulaRepresentation}, problem, task::{Task as _, strong_equivalence::StrongEquivalenceTask}},
     verif::simplifying_fol::sigma_0::{classic, ht, intuitionistic},
 };
 
@@ -87,6 +92,12 @@ pub fn run(suite: &str, seed: u64, n: usize, corpus: Option<&Path>) -> Vec<Case>
     match suite {
         "echo" => echo(seed, n, corpus),
         "gamma" => gamma(seed, n, corpus),
+        "tau_star" => tau_star(seed, n, corpus),
+        "natural" => natural(seed, n, corpus),
+        "analyze" => analyze(seed, n, corpus),
+        "completion" => completion(seed, n, corpus),
+        "break_eq" => break_eq(seed, n, corpus),
+        "strong" => strong(seed, n, corpus),
         "substitute" => substitute(seed, n, corpus),
         "rewrite" => rewrite(seed, n, corpus),
         "simplify" => simplify(seed, n, corpus),
@@ -227,6 +238,206 @@ fn simplify(seed: u64, n: usize, corpus: Option<&Path>) -> Vec<Case> {
                 cases.push(Case { req: format!("(simplify {pname} {sname} {PASS_BOUND} {input})"), nontrivial, imp, tag: sname, origin: origin.clone() });
             }
         }
+    }
+    cases
+}
+
+pub fn corpus_programs(dir: Option<&Path>, name: &str) -> Vec<(String, asp::Program)> {
+    corpus_lines(dir, name)
+        .into_iter()
+        .filter_map(|l| l.parse::<asp::Program>().ok().map(|p| (format!("corpus:{l}"), p)))
+        .collect()
+}
+
+pub fn programs(seed: u64, n: usize, corpus: Option<&Path>, names: &[&str]) -> Vec<(String, asp::Program)> {
+    let mut out = vec![];
+    for name in names {
+        out.extend(corpus_programs(corpus, name));
+    }
+    let mut rng = Rng::new(seed ^ 0x7A05);
+    for i in 0..n {
+        let mut g = Gen::new(rng.fork());
+        g.nvars = 2 + g.rng.below(22);
+        g.npreds = 2 + g.rng.below(5);
+        let depth = g.rng.below(3);
+        let max_rules = 1 + g.rng.below(4);
+        out.push((format!("seed:{seed}:{i}"), g.program(max_rules, depth)));
+    }
+    out
+}
+
+fn tau_star(seed: u64, n: usize, corpus: Option<&Path>) -> Vec<Case> {
+    programs(seed, n, corpus, &["programs"])
+        .into_iter()
+        .map(|(origin, p)| {
+            let input = sexp::program(&p);
+            let imp = guarded(move || sexp::theory(&p.tau_star()));
+            Case { req: format!("(tau_star {input})"), nontrivial: true, imp, tag: "tau_star", origin }
+        })
+        .collect()
+}
+
+fn natural(seed: u64, n: usize, corpus: Option<&Path>) -> Vec<Case> {
+    let mut cases = vec![];
+    for (origin, p) in programs(seed ^ 0x11, n, corpus, &["programs"]) {
+        let input = sexp::program(&p);
+        let q = p.clone();
+        let imp = guarded(move || sexp::opt(&q.natural(), sexp::theory));
+        cases.push(Case { req: format!("(natural {input})"), nontrivial: imp != "none", imp, tag: "natural", origin: origin.clone() });
+        let q = p.clone();
+        let imp = guarded(move || sexp::theory(&q.mu()));
+        cases.push(Case { req: format!("(mu {input})"), nontrivial: true, imp, tag: "mu", origin: origin.clone() });
+        let imp = guarded(move || p.is_regular().to_string());
+        cases.push(Case { req: format!("(is_regular {input})"), nontrivial: imp == "true", imp, tag: "is_regular", origin });
+    }
+    cases
+}
+
+fn fol_pred(p: &asp::Predicate) -> fol::Predicate {
+    fol::Predicate { symbol: p.symbol.clone(), arity: p.arity }
+}
+
+fn analyze(seed: u64, n: usize, corpus: Option<&Path>) -> Vec<Case> {
+    let mut cases = vec![];
+    let mut rng = Rng::new(seed ^ 0x22);
+    for (origin, p) in programs(seed ^ 0x22, n, corpus, &["programs", "analyze"]) {
+        let input = sexp::program(&p);
+        let q = p.clone();
+        let imp = guarded(move || q.is_tight().to_string());
+        cases.push(Case { req: format!("(is_tight {input})"), nontrivial: imp == "false", imp, tag: "is_tight", origin: origin.clone() });
+        // random private set
+        let preds: Vec<asp::Predicate> = p.predicates().into_iter().collect();
+        let private: indexmap::IndexSet<asp::Predicate> = preds.iter().filter(|_| rng.chance(2, 3)).cloned().collect();
+        let privs = sexp::list(private.iter().map(|x| sexp::pred(&fol_pred(x))));
+        let imp = guarded(move || p.has_private_recursion(&private).to_string());
+        cases.push(Case { req: format!("(private_recursion {input} {privs})"), nontrivial: imp == "true", imp, tag: "private_recursion", origin });
+    }
+    cases
+}
+
+fn completion(seed: u64, n: usize, corpus: Option<&Path>) -> Vec<Case> {
+    let mut cases = vec![];
+    let mut rng = Rng::new(seed ^ 0x33);
+    let mut theories: Vec<(String, fol::Theory)> = vec![];
+    for l in corpus_lines(corpus, "theories") {
+        if let Ok(t) = l.parse::<fol::Theory>() {
+            theories.push((format!("corpus:{l}"), t));
+        }
+    }
+    for (origin, p) in programs(seed ^ 0x33, n / 2, corpus, &["programs"]) {
+        if let Ok(t) = std::panic::catch_unwind(|| p.clone().tau_star()) {
+            theories.push((origin, t));
+        }
+    }
+    for i in 0..n / 2 {
+        // hand-shaped theories: implications with atom / #false consequents, some malformed
+        let mut g = Gen::new(rng.fork());
+        g.nvars = 3 + g.rng.below(4);
+        g.npreds = 2 + g.rng.below(3);
+        let k = 1 + g.rng.below(4);
+        let mut fs = vec![];
+        for _ in 0..k {
+            let d = 1 + g.rng.below(2);
+            let body = g.formula(d);
+            let head = match g.rng.below(6) {
+                0 => fol::Formula::AtomicFormula(fol::AtomicFormula::Falsity),
+                1 => g.formula(0),
+                _ => {
+                    let mut a = g.atom();
+                    if g.rng.chance(4, 5) {
+                        // variables as arguments (mostly distinct)
+                        let names = ["V1", "V2", "V3", "X", "Y"];
+                        a.terms = (0..a.terms.len()).map(|j| {
+                            let v = fol::Variable { name: names[if g.rng.chance(1, 8) { 0 } else { j % 5 }].to_string(), sort: if g.rng.chance(1, 6) { fol::Sort::Integer } else { fol::Sort::General } };
+                            v.into()
+                        }).collect();
+                    }
+                    fol::Formula::AtomicFormula(fol::AtomicFormula::Atom(a))
+                }
+            };
+            let c = if g.rng.chance(1, 5) { fol::BinaryConnective::ReverseImplication } else { fol::BinaryConnective::Implication };
+            let imp = if c == fol::BinaryConnective::Implication {
+                fol::Formula::BinaryFormula { connective: c, lhs: Box::new(body), rhs: Box::new(head) }
+            } else {
+                fol::Formula::BinaryFormula { connective: c, lhs: Box::new(head), rhs: Box::new(body) }
+            };
+            fs.push(if g.rng.chance(5, 6) { imp.universal_closure() } else { imp });
+        }
+        theories.push((format!("seed:{seed}:t{i}"), fol::Theory { formulas: fs }));
+    }
+    for (origin, t) in theories {
+        let preds: Vec<fol::Predicate> = t.predicates().into_iter().collect();
+        let inputs: indexmap::IndexSet<fol::Predicate> = preds.iter().filter(|_| rng.chance(1, 4)).cloned().collect();
+        let req = format!("(completion {} {})", sexp::theory(&t), sexp::list(inputs.iter().map(sexp::pred)));
+        let imp = guarded(move || sexp::opt(&t.completion(inputs), sexp::theory));
+        cases.push(Case { req, nontrivial: imp != "none", imp, tag: "completion", origin });
+    }
+    cases
+}
+
+fn break_eq(seed: u64, n: usize, corpus: Option<&Path>) -> Vec<Case> {
+    use anthem::verif::breaking_fol::sigma_0::ht::break_equivalences_formula;
+    let mut cases = vec![];
+    let mut rng = Rng::new(seed ^ 0x44);
+    for (origin, f) in formulas(seed ^ 0x44, n, corpus, &["formulas"]) {
+        // make equivalences under universal prefixes frequent
+        let f = if rng.chance(1, 2) {
+            let mut g = Gen::new(rng.fork());
+            let e = fol::Formula::BinaryFormula { connective: fol::BinaryConnective::Equivalence, lhs: Box::new(g.formula(1)), rhs: Box::new(f) };
+            let mut h = e;
+            for _ in 0..g.rng.below(3) {
+                h = fol::Formula::QuantifiedFormula { quantification: fol::Quantification { quantifier: fol::Quantifier::Forall, variables: g.var_list() }, formula: Box::new(h) };
+            }
+            h
+        } else { f };
+        let input = sexp::formula(&f);
+        let imp = guarded(move || sexp::theory(&break_equivalences_formula(f)));
+        cases.push(Case { req: format!("(break_eq {input})"), nontrivial: imp != format!("({input})"), imp, tag: "break_eq", origin });
+    }
+    cases
+}
+
+pub fn problem_sexp(p: &problem::Problem) -> String {
+    format!(
+        "(problem {} {})",
+        sexp::q(&p.name),
+        sexp::list(p.formulas.iter().map(|a| format!(
+            "({} {} {})",
+            sexp::q(&a.name),
+            match a.role { problem::Role::Axiom => "axiom", problem::Role::Conjecture => "conjecture" },
+            sexp::formula(&a.formula)
+        )))
+    )
+}
+
+fn strong(seed: u64, n: usize, corpus: Option<&Path>) -> Vec<Case> {
+    let mut cases = vec![];
+    let mut rng = Rng::new(seed ^ 0x55);
+    let progs = programs(seed ^ 0x55, 2 * n, corpus, &["programs"]);
+    for pair in progs.chunks(2) {
+        if pair.len() < 2 { break; }
+        let (origin, left) = (&pair[0].0, pair[0].1.clone());
+        let right = if rng.chance(1, 5) { left.clone() } else { pair[1].1.clone() };
+        let dec = if rng.chance(1, 2) { Decomposition::Independent } else { Decomposition::Sequential };
+        let dir = *rng.pick(&[fol::Direction::Universal, fol::Direction::Forward, fol::Direction::Backward]);
+        let rep = if rng.chance(1, 2) { FormulaRepresentation::Mu } else { FormulaRepresentation::TauStar };
+        let simplify = rng.chance(1, 2);
+        let brk = rng.chance(1, 2);
+        let req = format!(
+            "(strong {} {} {} {} {} {} {} {PASS_BOUND})",
+            sexp::program(&left), sexp::program(&right),
+            if dec == Decomposition::Independent { "independent" } else { "sequential" },
+            match dir { fol::Direction::Universal => "universal", fol::Direction::Forward => "forward", fol::Direction::Backward => "backward" },
+            match rep { FormulaRepresentation::Mu => "mu", FormulaRepresentation::TauStar => "tau_star" },
+            simplify, brk);
+        let imp = guarded(move || {
+            let task = StrongEquivalenceTask { left, right, decomposition: dec, direction: dir, formula_representation: rep, simplify, break_equivalences: brk };
+            match task.decompose() {
+                Ok(w) => sexp::list(w.data.iter().map(problem_sexp)),
+                Err(_) => "(error)".to_string(),
+            }
+        });
+        cases.push(Case { req, nontrivial: true, imp, tag: "strong", origin: origin.clone() });
     }
     cases
 }
